@@ -53,7 +53,7 @@ type Op struct {
 // Fault is one in-transit fault. Units are the underlying Write calls of the
 // sending side (one sealed frame each), counted per direction and phase.
 type Fault struct {
-	Kind string `json:"kind"` // corrupt | truncate | dup | swap | drop
+	Kind string `json:"kind"` // corrupt | truncate | dup | swap | drop | reflect (a copy of the unit is injected into the opposite direction)
 	Dir  int    `json:"dir"`  // 0 = A->B, 1 = B->A
 	HS   bool   `json:"hs,omitempty"`
 	Unit int    `json:"unit"`
@@ -63,7 +63,7 @@ type Fault struct {
 
 // Impostor describes the forged credentials side B presents in mode 2.
 type Impostor struct {
-	Kind string `json:"kind"` // honest | wrong-signer | replayed-sig | bitflip-sig | zero-sig
+	Kind string `json:"kind"` // honest | wrong-signer | replayed-sig | bitflip-sig | zero-sig | harvested-replay
 	KeyX int    `json:"keyx"` // third party whose key is claimed
 	Bit  int    `json:"bit"`  // bit flipped in the signature (bitflip-sig)
 }
@@ -74,6 +74,7 @@ type C32Plan struct {
 	KeyA      int       `json:"key_a"`
 	KeyB      int       `json:"key_b"`
 	Salt      int       `json:"salt"`
+	Eph       int       `json:"eph"`                  // seed of the stream that stands in for crypto/rand.Reader during the run (ephemeral keys)
 	Seg       [2][]int  `json:"seg"`                  // per direction: cyclic maximum of the underlying Reads (0 = unlimited)
 	HSTrickle []int     `json:"hs_trickle,omitempty"` // handshake: cyclic delivery steps per scheduling round (0 = everything)
 	Ops       []Op      `json:"ops,omitempty"`
@@ -88,8 +89,8 @@ var (
 	chunkSizes  = []int{0, 1, 2, 100, 1023, 1024, 1025, 2048, 3000}
 	segSizes    = []int{0, 1, 2, 7, 32, 33, 100, 521, 1041, 1042, 1043, 2084, 5000}
 	trickles    = []int{0, 1, 31, 32, 33, 500, 1041, 1042, 1043, 2000}
-	faultKinds  = []string{"corrupt", "truncate", "dup", "swap", "drop"}
-	forgeryKind = []string{"honest", "wrong-signer", "replayed-sig", "bitflip-sig", "zero-sig"}
+	faultKinds  = []string{"corrupt", "truncate", "dup", "swap", "drop", "reflect"}
+	forgeryKind = []string{"honest", "wrong-signer", "replayed-sig", "bitflip-sig", "zero-sig", "harvested-replay"}
 )
 
 func pick(rt *rapid.T, from []int, label string) int {
@@ -118,6 +119,7 @@ func genC32(rt *rapid.T) any {
 	p.KeyA = rapid.IntRange(0, 3).Draw(rt, "key_a")
 	p.KeyB = rapid.IntRange(0, 3).Draw(rt, "key_b")
 	p.Salt = rapid.IntRange(0, 255).Draw(rt, "salt")
+	p.Eph = rapid.IntRange(0, 4095).Draw(rt, "eph")
 	p.Seg[0] = pickList(rt, segSizes, 0, 4, "seg_ab")
 	p.Seg[1] = pickList(rt, segSizes, 0, 4, "seg_ba")
 	p.HSTrickle = pickList(rt, trickles, 0, 3, "hs_trickle")
@@ -195,6 +197,36 @@ func (s *sim) streamBytes(d, from, n int) []byte {
 	return b
 }
 
+// ---------------------------------------------------------------- randomness seam
+
+// detRand stands in for crypto/rand.Reader (a package variable) while a run
+// executes: the ephemeral handshake keys, and with them the shared secret, the
+// nonce parity and the lo/hi role of each side, become a function of the plan,
+// so that a replay is byte-for-byte the same execution.
+type detRand struct {
+	mu   sync.Mutex
+	seed int
+	ctr  uint64
+	buf  []byte
+}
+
+func (d *detRand) Read(p []byte) (int, error) {
+	d.mu.Lock()
+	defer d.mu.Unlock()
+	for i := range p {
+		if len(d.buf) == 0 {
+			var in [24]byte
+			copy(in[:], "connsim-eph")
+			binary.BigEndian.PutUint32(in[12:], uint32(d.seed))
+			binary.BigEndian.PutUint64(in[16:], d.ctr)
+			h := sha256.Sum256(in[:])
+			d.buf, d.ctr = h[:], d.ctr+1
+		}
+		p[i], d.buf = d.buf[0], d.buf[1:]
+	}
+	return len(p), nil
+}
+
 // ---------------------------------------------------------------- driver
 
 type readRes struct {
@@ -253,7 +285,8 @@ type sim struct {
 
 	phase     int // 0 handshake, 1 data
 	fault     [2]*Fault
-	fired     [2]bool
+	done      [2]bool // the planned fault of direction d has been applied
+	fired     [2]bool // direction d has been disturbed by a fault
 	firedKind [2]string
 	limit     [2]int // upper bound on delivered bytes after a corrupt/truncate/drop (-1: none)
 	hsFired   bool
@@ -265,7 +298,7 @@ type sim struct {
 	pend            [2]*pendingRead // by reading side
 	closing         bool
 	dataReads       int
-	box             panicBox
+	box             *panicBox
 }
 
 func harnessf(format string, args ...any) {
@@ -324,7 +357,7 @@ func (s *sim) release(d, s0, c int) bool {
 		if f != nil && f.HS {
 			phaseOfFault = 0
 		}
-		if f != nil && !s.fired[d] && h.held == nil && phaseOfFault == s.phase && f.Unit == ord && len(u) > 0 {
+		if f != nil && !s.done[d] && h.held == nil && phaseOfFault == s.phase && f.Unit == ord && len(u) > 0 {
 			off := f.Off % len(u)
 			switch f.Kind {
 			case "corrupt":
@@ -337,6 +370,11 @@ func (s *sim) release(d, s0, c int) bool {
 				h.wire = append(h.wire, u...)
 				h.wire = append(h.wire, u...)
 			case "drop":
+			case "reflect":
+				h.wire = append(h.wire, u...)
+				if o := s.h[1-d]; !o.cut {
+					o.wire = append(o.wire, u...)
+				}
 			case "swap":
 				h.held = u
 				continue // fires when the next unit overtakes it
@@ -357,8 +395,15 @@ func (s *sim) release(d, s0, c int) bool {
 }
 
 func (s *sim) fire(d int, f *Fault, j, k, s0, c, ord, off, ulen int) {
-	s.fired[d] = true
-	s.firedKind[d] = f.Kind
+	s.done[d] = true
+	hit := d // the disturbed direction
+	if f.Kind == "reflect" {
+		hit = 1 - d
+	}
+	if !s.fired[hit] {
+		s.fired[hit] = true
+		s.firedKind[hit] = f.Kind
+	}
 	name := "fault." + f.Kind
 	if s.phase == 0 {
 		name += "_hs"
@@ -412,6 +457,9 @@ func (s *sim) handshake(fa, fb func() (*connection.SecretConnection, error)) (re
 			sc, err := f()
 			ch[i] <- hsRes{sc: sc, err: err, done: true}
 		})
+		// Side A draws its ephemeral key before side B starts: the order in which
+		// the two sides consume the random stream is fixed.
+		synctest.Wait()
 	}
 	step, closed := 0, false
 	for round := 0; ; round++ {
@@ -705,7 +753,7 @@ func (s *sim) drainDir(d int) {
 	case s.firedKind[d] == "corrupt":
 		s.viol("tamper-undetected", "direction %s: a ciphertext byte was modified in transit, the receiver consumed the whole ciphertext (%d of %d bytes delivered) and no Read reported an error",
 			dirName(d), s.delivered[d], s.sent[d])
-	case s.firedKind[d] == "dup" || s.firedKind[d] == "swap":
+	case s.firedKind[d] == "dup" || s.firedKind[d] == "swap" || s.firedKind[d] == "reflect":
 		if out > 0 {
 			s.viol("bytes-lost", "direction %s: after a %s of ciphertext frames Read blocks with %d written bytes undelivered and no error was reported",
 				dirName(d), s.firedKind[d], out)
@@ -713,15 +761,19 @@ func (s *sim) drainDir(d int) {
 	}
 }
 
-func (s *sim) run() {
-	p := s.p
-	s.mode = modeName[p.Mode]
+func (s *sim) initLink() {
+	s.mode = modeName[s.p.Mode]
 	s.limit = [2]int{-1, -1}
 	for d := 0; d < 2; d++ {
-		s.h[d] = newHalf(p.Seg[d])
+		s.h[d] = newHalf(s.p.Seg[d])
 	}
 	s.ep[0] = &endpoint{in: s.h[1], out: s.h[0]}
 	s.ep[1] = &endpoint{in: s.h[0], out: s.h[1]}
+}
+
+func (s *sim) run() {
+	p := s.p
+	s.initLink()
 	s.priv[0], s.priv[1] = longTermKey(p.KeyA&3), longTermKey(4+p.KeyB&3)
 	for i := 0; i < 2; i++ {
 		s.pub[i] = s.priv[i].XPub().PublicKey()
@@ -882,7 +934,7 @@ type authMsg struct {
 // HEAD does (ephemeral X25519 key in the clear, then one sealed frame carrying
 // key+signature) but fills in the credentials the plan asks for. It is workload,
 // not oracle: if the wire protocol changes, the reach probes drop to zero.
-func (s *sim) impostorHandshake(ep *endpoint, own, third chainkd.XPrv) {
+func (s *sim) impostorHandshake(ep *endpoint, own, third chainkd.XPrv, kind string, replay *authMsg) (harvested *authMsg) {
 	imp := s.p.Imp
 	ephPub, ephPriv, err := box.GenerateKey(crand.Reader)
 	if err != nil {
@@ -891,7 +943,7 @@ func (s *sim) impostorHandshake(ep *endpoint, own, third chainkd.XPrv) {
 	ep.Write(ephPub[:])
 	var rem [32]byte
 	if _, err := io.ReadFull(ep, rem[:]); err != nil {
-		return
+		return nil
 	}
 	var shared [32]byte
 	box.Precompute(&shared, &rem, ephPriv)
@@ -913,7 +965,7 @@ func (s *sim) impostorHandshake(ep *endpoint, own, third chainkd.XPrv) {
 	challenge := sha256.Sum256(both)
 
 	var key, sig []byte
-	switch imp.Kind {
+	switch kind {
 	case "honest":
 		key, sig = own.XPub().PublicKey(), own.Sign(challenge[:])
 	case "wrong-signer": // claims a third party's key, signs with its own
@@ -926,8 +978,10 @@ func (s *sim) impostorHandshake(ep *endpoint, own, third chainkd.XPrv) {
 		sig[(imp.Bit/8)%len(sig)] ^= 1 << uint(imp.Bit%8)
 	case "zero-sig":
 		key, sig = third.XPub().PublicKey(), make([]byte, 64)
+	case "harvested-replay": // the third party's genuine credentials, taken from another session
+		key, sig = replay.Key, replay.Sig
 	default:
-		harnessf("unknown forgery kind %q", imp.Kind)
+		harnessf("unknown forgery kind %q", kind)
 	}
 	msg := wire.BinaryBytes(authMsg{key, sig})
 	frame := make([]byte, 2+1024)
@@ -935,7 +989,30 @@ func (s *sim) impostorHandshake(ep *endpoint, own, third chainkd.XPrv) {
 	copy(frame[2:], msg)
 	sealed := secretbox.Seal(nil, frame, send, &shared)
 	ep.Write(sealed)
-	io.ReadFull(ep, make([]byte, len(sealed))) // the victim's own credentials; not needed
+	// The peer's own credentials: opened only to harvest them for a later replay.
+	theirs := make([]byte, len(sealed))
+	if _, err := io.ReadFull(ep, theirs); err != nil {
+		return nil
+	}
+	recv := &nonce1
+	if !locIsLo {
+		recv = &nonce2
+	}
+	plain, ok := secretbox.Open(nil, theirs, recv, &shared)
+	if !ok || len(plain) < 2 {
+		return nil
+	}
+	l := int(binary.BigEndian.Uint16(plain))
+	if l > len(plain)-2 {
+		return nil
+	}
+	var n int
+	var rerr error
+	m, _ := wire.ReadBinary(authMsg{}, bytes.NewBuffer(plain[2:2+l]), l, &n, &rerr).(authMsg)
+	if rerr != nil || len(m.Key) == 0 {
+		return nil
+	}
+	return &m
 }
 
 func (s *sim) runImpostor() {
@@ -945,12 +1022,45 @@ func (s *sim) runImpostor() {
 	}
 	own := longTermKey(4 + s.p.KeyB&3)
 	third := longTermKey(8 + imp.KeyX&3)
+	var replay *authMsg
+	if imp.Kind == "harvested-replay" {
+		// Session 0: the third party, a real endpoint with its real key, connects
+		// to the attacker, who behaves honestly there and keeps the key and the
+		// challenge signature it is shown. Session 1 replays them to the victim.
+		h0 := &sim{r: s.r, p: s.p, box: s.box}
+		h0.initLink()
+		res0 := h0.handshake(
+			func() (*connection.SecretConnection, error) {
+				return connection.MakeSecretConnection(h0.ep[0], third)
+			},
+			func() (*connection.SecretConnection, error) {
+				replay = h0.impostorHandshake(h0.ep[1], own, third, "honest", nil)
+				return nil, nil
+			},
+		)
+		h0.ep[0].Close()
+		h0.ep[1].Close()
+		synctest.Wait()
+		if s.box.hit() {
+			return
+		}
+		// (whether the third party accepted the attacker does not matter: it has shown its credentials)
+		_ = res0
+		if replay == nil || !bytes.Equal(replay.Key, third.XPub().PublicKey()) {
+			s.r.Count("impostor.harvest_failed", 1)
+			s.r.Tracef("impostor harvested-replay: nothing harvested")
+			s.ep[0].Close()
+			s.ep[1].Close()
+			return
+		}
+		s.r.Count("probe.credentials_harvested", 1)
+	}
 	res := s.handshake(
 		func() (*connection.SecretConnection, error) {
 			return connection.MakeSecretConnection(s.ep[0], s.priv[0])
 		},
 		func() (*connection.SecretConnection, error) {
-			s.impostorHandshake(s.ep[1], own, third)
+			s.impostorHandshake(s.ep[1], own, third, imp.Kind, replay)
 			return nil, nil
 		},
 	)
@@ -999,7 +1109,10 @@ func execC32(t *testing.T, plan any, r *simkit.Run) {
 	if p.Mode < 0 || p.Mode > 2 || len(p.DrainBuf) == 0 {
 		harnessf("malformed plan")
 	}
-	s := &sim{r: r, p: p}
+	s := &sim{r: r, p: p, box: &panicBox{}}
+	realRand := crand.Reader
+	crand.Reader = &detRand{seed: p.Eph}
+	defer func() { crand.Reader = realRand }()
 	func() {
 		defer func() {
 			if pv := recover(); pv != nil {
@@ -1035,7 +1148,7 @@ func SpecC32() simkit.Spec {
 		Exec:    execC32,
 		Rule: "one run = one handshake of two real SecretConnection endpoints over a simulated duplex byte link, then 1-14 ops (write a message of 0/1/2/100/1023/1024/1025/2047/2048/2049/3000/4096/5000 or any 0-6000 bytes split into Write calls of 1..3000 bytes; one Read with a buffer of 0-4096 bytes) by either side in either direction, then both directions are read to the end with 1-3 cyclic buffer sizes; " +
 			"the link returns 1 byte .. unlimited per underlying Read (cyclic pattern per direction), hands ciphertext over in plan-chosen steps (also mid-frame, also during the handshake) or holds it back; " +
-			"three plan modes: faultfree (strict equality), faults (one of corrupt-one-byte / truncate+close / duplicate / swap / drop of the n-th ciphertext unit per direction, in the handshake or the data phase), impostor (side B presents forged credentials); " +
+			"three plan modes: faultfree (strict equality), faults (one of corrupt-one-byte / truncate+close / duplicate / swap / drop / reflect-into-the-opposite-direction of the n-th ciphertext unit per direction, in the handshake or the data phase), impostor (side B presents forged credentials); " +
 			"non-trivial = faultfree: data delivered through >=2 Read calls; faults: a fault actually fired; impostor: the victim reached its signature check (or accepted the genuine emulated peer); distinct = hash of the whole trace (sizes, n, error classes, fault positions; never ciphertext or keys)",
 		Components: map[string]string{
 			"p2p/connection.SecretConnection (MakeSecretConnection, Read, Write, RemotePubKey, Close)": "real",
@@ -1044,18 +1157,18 @@ func SpecC32() simkit.Spec {
 			"impostor peer": "stub attacker: harness code speaking the handshake wire format of the code at HEAD with forged key/signature (workload only, not an oracle)",
 		},
 		Assumptions: []string{
-			"ephemeral keys come from crypto/rand and differ between executions of the same plan; no decision, counter or trace line depends on them (only sizes, n, error classes)",
+			"the ephemeral keys are drawn from crypto/rand.Reader, which the engine replaces for the duration of a run by a plan-seeded deterministic stream (assignment to the package variable inside the test binary; nothing in /repo changes): 4096 different key pairs per side, both nonce parities and both lo/hi roles occur; traces still carry only sizes, n and error classes",
 			"one underlying Write call of the sender = one ciphertext unit; after a corrupt/truncate/drop of a unit that is not the first one of its Write call the bound on deliverable bytes is 'at least one byte of that call missing' (exact when it is the first)",
-			"after dup/swap the receiver may either report an error or deliver everything exactly once; after drop of the last unit the receiver may wait forever (undetectable tail loss)",
+			"after dup/swap/reflect the receiver may either report an error or deliver everything exactly once; after drop of the last unit the receiver may wait forever (undetectable tail loss)",
 			"a side whose handshake can make no progress is released by closing the link (stands for the dial/handshake timeout of p2p); handshake failure is accepted only after a handshake-phase fault fired",
 			"Read and Write of one endpoint are exercised from different goroutines but never at the same instant (one runnable goroutine at a time); data races are out of scope here (C37)",
 			"payload content is a fixed function of stream position and a salt; arbitrary byte values appear, arbitrary structure does not matter to a byte stream",
 		},
-		FaultKinds: []string{"fault.corrupt", "fault.truncate", "fault.dup", "fault.swap", "fault.drop",
-			"fault.corrupt_hs", "fault.truncate_hs", "fault.dup_hs", "fault.swap_hs", "fault.drop_hs",
-			"impostor.wrong-signer", "impostor.replayed-sig", "impostor.bitflip-sig", "impostor.zero-sig"},
+		FaultKinds: []string{"fault.corrupt", "fault.truncate", "fault.dup", "fault.swap", "fault.drop", "fault.reflect",
+			"fault.corrupt_hs", "fault.truncate_hs", "fault.dup_hs", "fault.swap_hs", "fault.drop_hs", "fault.reflect_hs",
+			"impostor.wrong-signer", "impostor.replayed-sig", "impostor.bitflip-sig", "impostor.zero-sig", "impostor.harvested-replay"},
 		Probes: []string{"probe.buffer_filled_more_outstanding", "probe.read_blocked_then_completed", "probe.write_while_own_read_pending",
 			"probe.ciphertext_held_in_flight", "probe.link_read_1byte", "probe.link_read_short", "probe.fault_detected_by_read_error",
-			"probe.forgery_rejected_at_signature_check", "probe.emulated_peer_accepted"},
+			"probe.forgery_rejected_at_signature_check", "probe.emulated_peer_accepted", "probe.credentials_harvested"},
 	}
 }
